@@ -45,6 +45,11 @@ func (bc *boundCtx) isLenLB(v ssa.Value) bool {
 			return true
 		}
 	}
+	if leBoundDepth == 0 {
+		if leBound(blockConds(bc.blk), v, func(w ssa.Value) bool { return lenValueOf(w, bc.base) }, 0) {
+			return true
+		}
+	}
 	ok := false
 	dominatingConds(bc.blk, func(cond ssa.Value, taken bool, at *ssa.BasicBlock) {
 		b, isB := cond.(*ssa.BinOp)
@@ -711,4 +716,131 @@ func callersGiveLen(fn *ssa.Function, base ssa.Value, need int64, depth int) boo
 		}
 		return false
 	})
+}
+
+// leBound: v <= B is known, where isBound recognises B (len of the indexed
+// slice in the caller; a parameter standing for it inside a helper): v is B;
+// B plus something not positive; B minus something not negative; min(…, B, …);
+// a value tested `<= B` on the way; a phi all of whose incoming values are so
+// on their edges; the result of a module helper all of whose returns are so
+// relative to the parameter the caller passes B for.
+var leBoundDepth int
+
+func leBound(it condIter, v ssa.Value, isBound func(ssa.Value) bool, d int) bool {
+	if d > 6 {
+		return false
+	}
+	leBoundDepth++
+	defer func() { leBoundDepth-- }()
+	if isBound(v) {
+		return true
+	}
+	// a dominating / edge test: v <= B, v < B, !(v > B), !(v >= B+…)
+	tested := false
+	it(func(cond ssa.Value, taken bool, at *ssa.BasicBlock) {
+		bo, ok := cond.(*ssa.BinOp)
+		if !ok {
+			return
+		}
+		op := bo.Op
+		if !taken {
+			op = negateCmp(op)
+		}
+		switch {
+		case bo.X == v && isBound(bo.Y) && (op == token.LEQ || op == token.LSS):
+			tested = true
+		case bo.Y == v && isBound(bo.X) && (op == token.GEQ || op == token.GTR):
+			tested = true
+		}
+	})
+	if tested {
+		return true
+	}
+	notPositive := func(y ssa.Value) bool {
+		if k, ok := constInt64(y); ok {
+			return k <= 0
+		}
+		neg := false
+		it(func(cond ssa.Value, taken bool, at *ssa.BasicBlock) {
+			bo, ok := cond.(*ssa.BinOp)
+			if !ok || bo.X != y {
+				return
+			}
+			k, isK := constInt64(bo.Y)
+			if !isK {
+				return
+			}
+			op := bo.Op
+			if !taken {
+				op = negateCmp(op)
+			}
+			if (op == token.LSS && k <= 1) || (op == token.LEQ && k <= 0) {
+				neg = true
+			}
+		})
+		return neg
+	}
+	switch x := v.(type) {
+	case *ssa.BinOp:
+		switch x.Op {
+		case token.ADD:
+			return (isBound(x.X) && notPositive(x.Y)) || (isBound(x.Y) && notPositive(x.X))
+		case token.SUB:
+			return leBound(it, x.X, isBound, d+1) && lowerOKIt(it, x.Y)
+		}
+	case *ssa.Phi:
+		for k, e := range x.Edges {
+			if !leBound(edgeConds(x.Block().Preds[k], x.Block()), e, isBound, d+1) {
+				return false
+			}
+		}
+		return len(x.Edges) > 0
+	case *ssa.Extract:
+		if call, ok := x.Tuple.(*ssa.Call); ok {
+			return calleeResultLE(call, x.Index, isBound, d)
+		}
+	case *ssa.Call:
+		if b, ok := x.Call.Value.(*ssa.Builtin); ok {
+			if b.Name() == "min" {
+				for _, a := range x.Call.Args {
+					if leBound(it, a, isBound, d+1) {
+						return true
+					}
+				}
+			}
+			return false
+		}
+		return calleeResultLE(x, 0, isBound, d)
+	}
+	return false
+}
+
+func calleeResultLE(call *ssa.Call, idx int, isBound func(ssa.Value) bool, d int) bool {
+	callee := call.Call.StaticCallee()
+	if callee == nil || callee.Blocks == nil || d > 3 {
+		return false
+	}
+	inner := func(w ssa.Value) bool {
+		p, ok := w.(*ssa.Parameter)
+		if !ok {
+			return false
+		}
+		a := argOf(&call.Call, callee, p)
+		return a != nil && isBound(a)
+	}
+	n := 0
+	for _, b := range callee.Blocks {
+		ret, ok := b.Instrs[len(b.Instrs)-1].(*ssa.Return)
+		if !ok || idx >= len(ret.Results) {
+			continue
+		}
+		if isErrorExit(ret) {
+			continue
+		}
+		n++
+		if !leBound(blockConds(b), ret.Results[idx], inner, d+1) {
+			return false
+		}
+	}
+	return n > 0
 }
